@@ -36,7 +36,7 @@ func (c13) Assumptions() []string {
 	return []string{"siblings are kept in flight with handler-side delays (the handler object lives in the host process)"}
 }
 
-var c13Payload = []string{"string", "error", "nil-map write", "nil dereference", "index out of range", "custom struct", "panic(nil)", "1 MiB string", "pointer", "String() panics"}
+var c13Payload = []string{"string", "error", "nil-map write", "nil dereference", "index out of range", "custom struct", "panic(nil)", "1 MiB string", "pointer", "String() panics", "http.ErrAbortHandler"}
 var c13Kinds = []string{"unary", "notification", "channel", "reverse", "custom", "after-cancel", "concurrent", "batch"}
 
 func (c13) Plan(tier string, seed int64) []core.Scenario {
@@ -58,7 +58,7 @@ func (c13) Plan(tier string, seed int64) []core.Scenario {
 					if tier != "thorough" && ck == "custom" && pk%2 == 1 {
 						continue
 					}
-					out = append(out, core.Sc("panic").WithN("payload", pk).WithS("kind", ck).WithS("transport", tr).WithN("mix", (pk+rep)%4).WithN("tracer", (pk/2+rep+len(ck))%2))
+					out = append(out, core.Sc("panic").WithN("payload", pk).WithS("kind", ck).WithS("transport", tr).WithN("mix", (pk+rep)%4).WithN("tracer", (pk/2+rep+len(ck))%2).WithN("copt", (pk+rep+len(ck)/2)%3))
 				}
 			}
 		}
@@ -117,7 +117,11 @@ func (c13) server(sc core.Scenario, r *core.R) {
 	defer host.Kill()
 	mk := func(transport string) (*svc.Client, jsonrpc.ClientCloser, error) {
 		var cl svc.Client
-		closer, err := jsonrpc.NewMergeClient(context.Background(), transport+"://"+host.Addr, "S", []interface{}{&cl}, nil, jsonrpc.WithNoReconnect())
+		copts := []jsonrpc.Option{jsonrpc.WithNoReconnect()}
+		if sc.I("copt") == 1 {
+			copts = append(copts, jsonrpc.WithErrors(jsonrpc.NewErrors())) // error mapping on (no application types registered)
+		}
+		closer, err := jsonrpc.NewMergeClient(context.Background(), transport+"://"+host.Addr, "S", []interface{}{&cl}, nil, copts...)
 		if err != nil {
 			return nil, nil, err
 		}
@@ -172,9 +176,14 @@ func (c13) server(sc core.Scenario, r *core.R) {
 	label := fmt.Sprintf("%s/%s payload=%s", tr, ck, c13Payload[pk])
 	switch ck {
 	case "unary":
-		o := Go(pt, func() (string, error) { return main.Boom(bg, pt, pk) })
+		o := Go(pt, func() (string, error) {
+			if sc.I("copt") == 2 {
+				return main.BoomR(bg, pt, pk) // the same method through a retry-tagged proxy field
+			}
+			return main.Boom(bg, pt, pk)
+		})
 		if !o.Wait(core.Grace) {
-			r.Violate("panic-call-hang", "%s: the call whose handler panicked never returned", label)
+			r.Violate("panic-call-hang", "%s: the call whose handler panicked never returned (client option variant %d: 0 plain, 1 WithErrors, 2 retry-tagged field)", label, sc.I("copt"))
 		} else if ok, why := mentionsPanic(o.Err, pk, pt); !ok {
 			r.Violate("panic-not-reported", "%s: %s (value %q)", label, why, o.Val)
 		}
@@ -310,7 +319,7 @@ func (c13) server(sc core.Scenario, r *core.R) {
 			r.Violate("host-crash:"+CrashSite(host.Stderr()), "%s: the server process did not exit cleanly: %s; stderr: %s", label, detail, core.Trunc(host.Stderr(), 1500))
 		}
 	}
-	r.Key(fmt.Sprintf("%s %s payload=%d mix=%d tracer=%d", tr, ck, pk, mix, sc.I("tracer")), len(sib)+len(streams) > 0)
+	r.Key(fmt.Sprintf("%s %s payload=%d mix=%d tracer=%d copt=%d", tr, ck, pk, mix, sc.I("tracer"), sc.I("copt")), len(sib)+len(streams) > 0)
 	r.Obs("panics_raised", 1)
 	r.Obs("siblings", int64(len(sib)))
 	r.Obs("streams", int64(len(streams)))
